@@ -2,7 +2,7 @@
 from ..rules import engine, search, variants, branching, optimize, scratch, shaving, dispatch
 
 EXPLANATION = (
-    "Static analysis of the progress measures: no event is announced by the write-back without a strict shrink of a stored bound (R-EVENTS-EXACT, R-WRITEBACK-MONO), so a propagator is re-queued only after progress; each registered variable heuristic answers the 'nothing to branch on' value only when no decision domain is open (first-iteration-state analysis + Houdini order invariants); every `while` loop of jitted code gets a derived termination argument (guard quantity strictly decreasing, monotone pointer chase, guarded counter sum) or is listed as undecided with its reason; every branch of every value heuristic strictly shrinks the domain. Not termination of the Hall-interval pointer chases (listed). Also: the optimisation loop's termination clauses (reset before tighten, strict move past the incumbent, emptiness guard); the shaving loop's variant (an iteration that goes round again has probed; a failed probe advances the (cursor, bound) pair); gcc's preconditions (R-HALL-PRECOND: a variable whose bounds were moved before the ranking never reaches it with crossed bounds; every one of the four sibling passes that merges an interval when its capacity reaches zero singles out, when it initialises its pointers, the intervals whose capacity is zero from the start -- fixes 0d60ece, a67ad7b); min-cost branches on a scanned value of the whole domain."
+    "Static analysis of the progress measures: no event is announced by the write-back without a strict shrink of a stored bound (R-EVENTS-EXACT, R-WRITEBACK-MONO), so a propagator is re-queued only after progress; each registered variable heuristic answers the 'nothing to branch on' value only when no decision domain is open (first-iteration-state analysis + Houdini order invariants); every `while` loop of jitted code gets a derived termination argument (guard quantity strictly decreasing, monotone pointer chase, guarded counter sum) or is listed as undecided with its reason; every branch of every value heuristic strictly shrinks the domain. Not termination of the Hall-interval pointer chases (listed). Also: the optimisation loop's termination clauses (reset before tighten, strict move past the incumbent, emptiness guard); the shaving loop's variant (an iteration that goes round again has probed; a failed probe advances the (cursor, bound) pair); gcc's preconditions (R-HALL-PRECOND: a variable whose bounds were moved before the ranking never reaches it with crossed bounds; every one of the four sibling passes that merges an interval when its capacity reaches zero singles out, when it initialises its pointers, the intervals whose capacity is zero from the start -- fixes 0d60ece, a67ad7b); min-cost branches on a scanned value of the whole domain. Round 3: every value heuristic pushes on every path (also for an instantiated domain); the shaving scan is given the decision domains whose value is >= the cursor; no raise in the call-graph closure of the value / variable heuristics (the push primitive's provably dead defensive check excepted)."
 )
 
 
